@@ -57,7 +57,26 @@ func programs() []*progen.Program {
 	add(progen.FileFlow(progen.FileParams{Out: "f", Prod: "filew", ConsWrap: true, Late: true, TopOut: true, Mode: "rolling", Size: 2}))
 	// wildcard bindings and struct-typed pipeline outputs
 	add(wildcardProgram())
+	add(retainOnlyProgram())
 	return out
+}
+
+// retainOnlyProgram: a call whose only use is the pipeline's retain list,
+// next to a call nothing uses at all.
+func retainOnlyProgram() *progen.Program {
+	p := progen.Dataflow(progen.DataflowParams{Kind: "int", Src: "gen", Size: 2, Cons: "add"})
+	if p == nil {
+		return nil
+	}
+	p.Stages = append(p.Stages, &progen.Stage{Name: "DBG", Fn: "FILEW", Ins: []progen.Param{{T: progen.IntT, Name: "n"}},
+		Outs: []progen.Param{{T: progen.FiletypeT("txt"), Name: "f"}, {T: progen.IntT, Name: "num"}}})
+	top := p.Pipeline("TOP")
+	top.Calls = append(top.Calls,
+		&progen.Call{Callee: "DBG", Binds: []progen.Bind{{"n", progen.Self("n")}}},
+		&progen.Call{Callee: "ADD", Alias: "SPARE", Binds: []progen.Bind{{"a", progen.Self("n")}, {"b", progen.Lit(progen.Int(1))}}})
+	top.Retain = append(top.Retain, progen.Ref("DBG", "f"))
+	p.Desc = "retain-only-call"
+	return p
 }
 
 func wildcardProgram() *progen.Program {
